@@ -172,6 +172,19 @@ def gen_model(rng, depth, counter, allow_inherit=True):
         order = order + post
         cls = type(f'Derived{cid}', (Base,), attrs)
         return {'fields': order, 'cls': cls, 'id': cid, 'style': 'derived'}
+    if allow_inherit and depth == 0 and 0.35 <= style < 0.42:
+        # derivation WITHOUT IncludeBase: a base that the class body does not place contributes nothing to the wire form
+        # (documentation: "there must be a field for every base class to explicitly include its base class"); a field of the body
+        # that re-uses a base field's name is an ordinary field of the body, at its own place
+        base_fields = [gen_field(rng, f'b{i}', used, 3, counter) for i in range(rng.randint(1, 3))]
+        Base = type(f'UBase{cid}', (TlvModel,), {f['name']: make_lib_field(f) for f in base_fields})
+        own = [gen_field(rng, f'p{i}', used, depth, counter) for i in range(rng.randint(1, 3))]
+        if rng.random() < 0.4:
+            nf = gen_field(rng, base_fields[0]['name'], used, 3, counter)
+            own.insert(rng.randrange(len(own) + 1), nf)
+        cls = type(f'Unplaced{cid}', (Base,), {f['name']: make_lib_field(f) for f in own})
+        names = {f['name'] for f in own}
+        return {'fields': own, 'cls': cls, 'id': cid, 'style': 'derived-unplaced', 'unplaced': [f for f in base_fields if f['name'] not in names]}
     if allow_inherit and depth == 0 and style < 0.35:
         # diamond
         a = [gen_field(rng, f'a{i}', used, 3, counter) for i in range(rng.randint(1, 2))]
@@ -560,6 +573,13 @@ def check_value(ctx, rng, spec, value, thorough_gaps):
     try:
         n_in, n_ex = INPLACE
         m = to_lib(rng, top, value)
+        for bf in spec.get('unplaced', ()):
+            # the attributes of a base that is not placed exist on the object and may be assigned; they are no part of the wire form
+            if bf['kind'] not in ('rep', 'map') and rng.random() < 0.7:
+                bv = gen_value(rng, bf, big_ok=False, present=True)
+                if bv is not None and not isinstance(bv, str) or (isinstance(bv, str) and bv != EXPLICIT_NONE):
+                    setattr(m, bf['name'], to_lib(rng, bf, bv))
+                    ctx.event('unplaced-base-attribute-assigned')
         if INPLACE[0] > n_in:
             ctx.event('container-field-filled-in-place')
         if INPLACE[1] > n_ex:
